@@ -25,9 +25,15 @@
                                          then the same for the one-worker schedule
     answer: "J <jobs> # R <results under the schedule> # Q <results of the sequential loop>
              # X <closed form seqResult> # H <heap after the schedule> # D=<disciplined> C=<complete>"
+
+  gate-level measurement result (QV/Model/GateBinding.lean):
+    G <rebind 0|1> <addRepoints 0|1> <nops> op…     op: P plain execution | Q execution with a
+        Circuit as initial state | M m.samples() | R e  results[e].samples()
+    answer: "C e" | "r e" (rows of execution e) | "raises" | "none" | "X", separated by " | "
 -/
 import QV.Model.ResultSM
 import QV.Model.Parallel
+import QV.Model.GateBinding
 open QV.RSM
 
 structure Rd where
@@ -194,6 +200,27 @@ def parLine (t : String) : P String := do
     else
       pure (parAnswer [{ params := ps }] (parParametrizedShared ng slots sets input) sched)
 
+def gbAnswer : P String := do
+  let rb ← nextBool
+  let ar ← nextBool
+  let n ← nextNat
+  let mut ops : List QV.GB.Op := []
+  for _ in [0:n] do
+    let t ← nextTok
+    match t with
+    | "P" => ops := .plain :: ops
+    | "Q" => ops := .prep :: ops
+    | "M" => ops := .readGate :: ops
+    | _ => ops := .readRes (← nextNat) :: ops
+  let out := QV.GB.run { rebind := rb, addRepoints := ar } ops.reverse
+  pure (" | ".intercalate (out.map fun a =>
+    match a with
+    | .created e => "C " ++ toString e
+    | .rows e => "r " ++ toString e
+    | .raises => "raises"
+    | .nothing => "none"
+    | .invalid => "X"))
+
 def answer (line : String) : String :=
   let toks := (line.splitOn " ").filter (· ≠ "") |>.toArray
   let go : P String := do
@@ -210,6 +237,7 @@ def answer (line : String) : String :=
       let (c, ops) ← nextHistory
       pure (optNat (stateAfter c (St.init c) ops).final)
     | "PX" | "PC" | "PP" | "PS" | "PT" => parLine t
+    | "G" => gbAnswer
     | _ => pure "?"
   (go.run { toks := toks }).1
 
